@@ -2,7 +2,7 @@
 # usage: run.sh <mutant-name>...   (applies to the scratch repo, runs the check, replays on mutant and on clean, reverts)
 cd /var/tmp/ws-C05/verif
 export VERIF_REPO=/var/tmp/ws-C05/repo
-D=/var/tmp/ws-C05/scratch/mutants
+D=/var/tmp/ws-C05/verif/selftest_C05
 for m in "$@"; do
   (cd $VERIF_REPO && /venv/bin/python $D/apply.py $m >/dev/null && git diff > $D/$m.diff)
   s=$(date +%s); ./check C05 > $D/$m.out 2>&1; rc=$?; e=$(date +%s)
